@@ -135,19 +135,6 @@ Definition seen_eqb (a b : seen) : bool :=
   | _, _ => false
   end.
 
-(* ---------- known-finding class (open): the `regex` crate's `.` does not match LF, so `?`
-   and `**` do not match a line feed inside a key ---------- *)
-Definition has_nl (s : list N) : bool := existsb (N.eqb c_nl) s.
-Fixpoint has_dot_wild (p : list N) : bool :=   (* contains `?` or `**` *)
-  match p with
-  | [] => false
-  | c :: p' => (N.eqb c c_quest) ||
-               (N.eqb c c_star && match p' with c2 :: _ => N.eqb c2 c_star | [] => false end) ||
-               has_dot_wild p'
-  end.
-Definition known_nl (keys : list (list N)) (p : list N) : bool :=
-  existsb has_nl keys && has_dot_wild p.
-
 (* ---------- reference checks for the property instance (independent of the regex route and
    of sort_keys) ---------- *)
 Definition key_ltb (a b : list N) : bool := key_leb a b && negb (list_eqb a b).
@@ -258,8 +245,6 @@ Fixpoint distinct_keys (l : list (list N)) : list (list N) :=
   | k :: r => if mem_key k r then distinct_keys r else k :: distinct_keys r
   end.
 
-Definition verdict_of (agree prop known : bool) : verdict := V agree prop known false.
-
 Definition check_expand (bucket : option (list (list N))) (keys : list (list N)) (p : list N)
            (o1 o2 : outcome (list (list N))) (s : option seen) : verdict :=
   let m1 := expand bucket p in
@@ -274,7 +259,7 @@ Definition check_expand (bucket : option (list (list N))) (keys : list (list N))
                end in
   let prop := prop_expand bucket p o1 && prop_required o1 o2 &&
               match s with Some sn => prop_prefix keys p sn | None => true end in
-  verdict_of agree prop (known_nl keys p).
+  ok_verdict agree prop.
 
 Definition check_C19 (kind : string) (input output : J) : verdict :=
   if String.eqb kind "expand" then
@@ -363,7 +348,6 @@ Definition check_C19 (kind : string) (input output : J) : verdict :=
             let model := read_glob toy_de toy_dec st p in
             let keys := distinct_keys (map fst objs) in
             let ref := flat_map (fun k => last_write objs k []) (expand_ref keys p) in
-            let known := known_nl keys p in
             match output with
             | JL [t; JL back] =>
                 if jtag_is "ok" t then
@@ -372,7 +356,7 @@ Definition check_C19 (kind : string) (input output : J) : verdict :=
                                | Err _ => false
                                end in
                   let prop := match objs with [] => false | _ :: _ => jl_eqb back ref end in
-                  verdict_of agree prop known
+                  ok_verdict agree prop
                 else malformed
             | JL [t; e] =>
                 if jtag_is "err" t then
@@ -380,7 +364,7 @@ Definition check_C19 (kind : string) (input output : J) : verdict :=
                   | Some ek =>
                       let agree := match model with Err m => errkind_eqb m ek | Ok _ => false end in
                       let prop := match objs, ek with [], NotFound => true | _, _ => false end in
-                      verdict_of agree prop known
+                      ok_verdict agree prop
                   | None => malformed
                   end
                 else malformed
